@@ -91,7 +91,7 @@ class ModelEngine(Engine):
     name = 'epochs_c10'
     max_ops = 30
     expected_probes = ['read_in_other_epoch', 'xml_read', 'json_read', 'dm_read', 'path_read', 'stream_read', 'short_read_stream',
-                       'scaled_property', 'symbols_with_gap', 'masses_partly_none', 'units_given_without_names', 'format_name_not_lower_case', 'mass_zero', 'refused_reset_raised', 'refused_dump_raised', 'refused_record_raised', 'one_atom_system', 'length1_array',
+                       'scaled_property', 'symbols_with_gap', 'masses_partly_none', 'units_given_without_names', 'format_name_not_lower_case', 'mass_zero', 'refused_reset_raised', 'refused_dump_raised', 'refused_record_raised', 'refused_model_raised', 'refused_masses_raised', 'one_atom_system', 'length1_array',
                        'rank3_value', 'rewrite_chain', 'elastic_normalised', 'unseeded_epoch', 'string_property', 'error_field',
                        'noncontiguous_input', 'box_read_into_used_object', 'io_error_read_raised', 'second_write_same_arguments', 'single_property_record', 'integer_typed_positions', 'nonfinite_values_round_tripped', 'same_object_dumped_again_after_edit', 'scribble_on_normalized_copy']
     rule = ('Each run is a history of up to 30 operations over a set of up to 10 serialised artifacts: build a value-with-units / '
@@ -275,7 +275,7 @@ class ModelEngine(Engine):
                         if not any(x == 0.0 for x in masses if x is not None):
                             masses[0] = 0.0
                 op.update(symbols=syms, masses=masses, pbc=[r.random() < 0.6 for _ in range(3)], box_unit=r.choice([None, 'angstrom', 'nm', 'm']),
-                          via=r.choice(['model', 'dump']), refused_dump=r.random() < 0.4, fmt_case=r.choice(['lower', 'lower', 'lower', 'upper', 'title']))
+                          via=r.choice(['model', 'dump']), refused_dump=r.random() < 0.4, refused_first=r.choice([None, None, 'model', 'masses', 'both']), fmt_case=r.choice(['lower', 'lower', 'lower', 'upper', 'title']))
         else:
             # a positive-definite stiffness of a given crystal system, SI (Pa)
             system = r.choice(['triclinic', 'cubic', 'hexagonal', 'orthorhombic', 'isotropic-as-cubic', 'rhombohedral', 'tetragonal'])
@@ -510,7 +510,7 @@ class ModelEngine(Engine):
                 nobj.Cij = np.asarray(nobj.Cij) * 2.0 + 1.0e-3 * float(np.abs(C).max())
                 ctx.fault('scribble_on_normalized_copy')
                 ctx.probe('scribble_on_normalized_copy')
-            if op.get('refused_read'):
+            if op.get('refused_read') and not st['cfg']['fault_free']:
                 # the live object is asked to take its constants from a record it has to refuse (one of two symmetric entries
                 # edited): it goes on holding what it held
                 badrec = DM(ec.model(unit='GPa').json())
@@ -629,6 +629,19 @@ class ModelEngine(Engine):
             pbc = [bool(x) for x in op['pbc']]
             system = ctx.must('C10.X', am.System, atoms=atoms, box=box, pbc=pbc, klass='System()', **skw)
             snap_box = (np.array(system.box.vects), np.array(system.box.origin))
+            ff = st['cfg']['fault_free']
+            if not ff and op.get('refused_first') in ('model', 'both'):
+                # a first request that the library has to refuse (box-relative positions asked for together with a unit that does
+                # not exist): the system it was made on is written afterwards and must be what it was
+                ok2, _ = ctx.sut(system.model, prop_unit={'atype': 'no_such_unit', 'pos': 'scaled'})
+                ctx.fault('refused_model')
+                if not ok2:
+                    ctx.probe('refused_model_raised')
+            if not ff and op.get('refused_first') in ('masses', 'both'):
+                ok2, _ = ctx.sut(setattr, system, 'masses', [1.5] * (len(system.symbols) + 1))
+                ctx.fault('refused_masses')
+                if not ok2:
+                    ctx.probe('refused_masses_raised')
             kw['box_unit'] = op['box_unit']
             kw_before = _copy.deepcopy(kw)
             if op['via'] == 'dump' and op['enc'] != 'dm':
@@ -654,7 +667,7 @@ class ModelEngine(Engine):
                     st['nfile'] += 1
                     p = os.path.join(st['scratch'], 'd%d.%s' % (st['nfile'], op['enc']))
                     ctx.must('C10.J4', system.dump, 'system_model', f=p, klass='dump/system_model/path', **ikw, **kw)
-                    if op.get('refused_dump'):
+                    if op.get('refused_dump') and not st['cfg']['fault_free']:
                         # a second request for the same file that the library refuses (unknown unit): the file keeps the first dump
                         bad = {k2: v for k2, v in kw.items() if k2 not in ('prop_unit', 'prop_name', 'unit')}
                         bad['prop_unit'] = {'atype': None, 'pos': 'no_such_unit'}
